@@ -343,9 +343,9 @@ fn run_strict(ctx: &crate::engine::Ctx, n: usize) -> crate::engine::SubResult {
     let mut samples = vec![];
     for (i, t) in texts.iter().enumerate() {
         for (prof, tr) in [("release", &s1), ("relda", &s2)] {
-            let got = tr.get(i).cloned().unwrap_or_else(|| "MISSING (probe died)".to_string());
+            let got = tr.get(i).cloned().unwrap_or_else(|| "#MISSING# (probe died)".to_string());
             let d = base.get(i).cloned().unwrap_or_default();
-            let r = if got.contains("PANIC") || got.contains("MISSING") { Err(format!("probe output {}", got)) } else { judge_strict(t, &got, &d) };
+            let r = if got.contains("#PANIC#") || got.contains("#MISSING#") { Err(format!("probe output {}", got)) } else { judge_strict(t, &got, &d) };
             if let Err(m) = r {
                 return mk(
                     Some(crate::engine::Failure {
